@@ -118,6 +118,31 @@ def inSsize (n : Int) : Bool := decide (-9223372036854775808 ≤ n ∧ n < 92233
 def seqMul (mk : List Nat → Val) (s : List Nat) (n : Int) : PyRes :=
   if inSsize n then .ok (.val (mk (pyRepeat s n))) else .raises .overflowError
 
+/-- `int.bit_length()` -/
+def bitLength (a : Int) : Nat := if a = 0 then 0 else a.natAbs.log2 + 1
+
+/-! ## the folders' size guards (commit f18fd55: "constant folding refuses to build huge values")
+
+Each guard tests the *operands* before the operation is evaluated; which operator branches carry one, and
+the two bounds, are read from the source by translate/c12fold.py (`Cfg.guard…`, `Cfg.maxFolded…`; all
+`false` / 0 on a tree without the guards).  `true` = the folder goes on to evaluate. -/
+
+/-- `constant_fold_binary_int_op`: `left.bit_length() + right.bit_length() > MAX_FOLDED_INT_BITS` for `*`,
+    `left.bit_length() + right > …` for `<<`, `left.bit_length() * right > …` for `**` → `return None` -/
+def intGuardOk (op : Op) (l r : Int) : Bool :=
+  match op with
+  | .mul => !Cfg.guardIntMul || decide (bitLength l + bitLength r ≤ Cfg.maxFoldedIntBits)
+  | .lshift => !Cfg.guardIntShl || decide ((bitLength l : Int) + r ≤ (Cfg.maxFoldedIntBits : Int))
+  | .pow => !Cfg.guardIntPow || decide ((bitLength l : Int) * r ≤ (Cfg.maxFoldedIntBits : Int))
+  | _ => true
+
+/-- `len(left) + len(right) > MAX_FOLDED_STR_LENGTH → None` -/
+def catGuardOk (flag : Bool) (m n : Nat) : Bool := !flag || decide (m + n ≤ Cfg.maxFoldedStrLength)
+
+/-- `len(seq) * count > MAX_FOLDED_STR_LENGTH → None` -/
+def seqGuardOk (flag : Bool) (len : Nat) (n : Int) : Bool :=
+  !flag || decide ((len : Int) * n ≤ (Cfg.maxFoldedStrLength : Int))
+
 /-! ## CPython: `a op b` -/
 
 /-- int ∘ int (operands already known to be `int` instances; `bb` = both are `bool`) -/
@@ -207,9 +232,13 @@ def repeatCount (op : Op) (a b : Val) : Option Int :=
 
 /-! ## mypy / mypyc: the folders, guards exactly as written
 
-`left * right` on a sequence raises `OverflowError` inside the folder when the count does not fit
-`ssize_t` (the folder has no guard: finding F24); the model returns the repeated sequence there and the
-theorems carry the hypothesis `RepeatInRange`. -/
+`left * right` on a sequence raises `OverflowError` when the count does not fit `ssize_t`; since commit
+8e803c7 `constant_fold_binary_op` / `constant_fold_binary_op_extended` catch it and return `None`
+(`foldRepeat`; on an older tree the folder raises there — finding F26 — which the harness reports). -/
+
+/-- `seq * count` inside a folder: size guard, then the operation under the `OverflowError` handler -/
+def foldRepeat (flag : Bool) (mk : List Nat → Val) (s : List Nat) (n : Int) : Option Res :=
+  if seqGuardOk flag s.length n && inSsize n then some (.val (mk (pyRepeat s n))) else none
 
 /-- `constant_fold_binary_int_op(op, left, right)`; the Python operators it applies are the `py…`
     functions above (`bb`: both operands are `bool`, for which `& | ^` return `bool`). -/
@@ -217,7 +246,7 @@ def foldBinInt (op : Op) (bb : Option (Bool × Bool)) (l r : Int) : Option Res :
   match op with
   | .add => some (.val (.int (l + r)))
   | .sub => some (.val (.int (l - r)))
-  | .mul => some (.val (.int (l * r)))
+  | .mul => if intGuardOk .mul l r then some (.val (.int (l * r))) else none
   | .truediv => if r ≠ 0 then some .float else none
   | .floordiv => if r ≠ 0 then some (.val (.int (Int.fdiv l r))) else none
   | .mod => if r ≠ 0 then some (.val (.int (Int.fmod l r))) else none
@@ -233,9 +262,9 @@ def foldBinInt (op : Op) (bb : Option (Bool × Bool)) (l r : Int) : Option Res :
     match bb with
     | some (x, y) => some (.val (.bool (x != y)))
     | none => some (.val (.int (lxor l r)))
-  | .lshift => if r ≥ 0 then some (.val (.int (shl l r.toNat))) else none
+  | .lshift => if r ≥ 0 then (if intGuardOk .lshift l r then some (.val (.int (shl l r.toNat))) else none) else none
   | .rshift => if r ≥ 0 then some (.val (.int (shr l r.toNat))) else none
-  | .pow => if r ≥ 0 then some (.val (.int (l ^ r.toNat))) else none
+  | .pow => if r ≥ 0 then (if intGuardOk .pow l r then some (.val (.int (l ^ r.toNat))) else none) else none
   | .matmul => none
 
 /-- `constant_fold_binary_op(op, left, right)` without the float / complex branches -/
@@ -244,14 +273,15 @@ def foldBinOp (op : Op) (l r : Val) : Option Res :=
   | some x, some y => foldBinInt op (bothBool l r) x y
   | _, _ =>
     match op, l, r with
-    | .add, .str s, .str t => some (.val (.str (s ++ t)))
+    | .add, .str s, .str t =>
+      if catGuardOk Cfg.guardStrAdd s.length t.length then some (.val (.str (s ++ t))) else none
     | .mul, .str s, other =>
       match other.asInt with
-      | some n => some (.val (.str (pyRepeat s n)))
+      | some n => foldRepeat Cfg.guardStrMulR .str s n
       | none => none
     | .mul, other, .str s =>
       match other.asInt with
-      | some n => some (.val (.str (pyRepeat s n)))
+      | some n => foldRepeat Cfg.guardStrMulL .str s n
       | none => none
     | _, _, _ => none
 
@@ -260,17 +290,33 @@ def foldBinOp (op : Op) (l r : Val) : Option Res :=
 def foldBin (ext : Bool) (op : Op) (l r : Val) : Option Res :=
   if ext && (l.isBytes || r.isBytes) then
     match op, l, r with
-    | .add, .bytes s, .bytes t => some (.val (.bytes (s ++ t)))
+    | .add, .bytes s, .bytes t =>
+      if catGuardOk Cfg.guardBytesAdd s.length t.length then some (.val (.bytes (s ++ t))) else none
     | .mul, .bytes s, other =>
       match other.asInt with
-      | some n => some (.val (.bytes (pyRepeat s n)))
+      | some n => foldRepeat Cfg.guardBytesMulR .bytes s n
       | none => none
     | .mul, other, .bytes s =>
       match other.asInt with
-      | some n => some (.val (.bytes (pyRepeat s n)))
+      | some n => foldRepeat Cfg.guardBytesMulL .bytes s n
       | none => none
     | _, _, _ => none
   else foldBinOp op l r
+
+/-- **the guard as a predicate on the operands** (decidable): no size test of the folder `ext` fires for
+    `l op r`.  Above it the folder declines (`fold_declines_above_guard`), below it the folder is complete. -/
+def belowGuard (ext : Bool) (op : Op) (l r : Val) : Bool :=
+  match l.asInt, r.asInt with
+  | some x, some y => intGuardOk op x y
+  | _, _ =>
+    match op, l, r with
+    | .add, .str s, .str t => catGuardOk Cfg.guardStrAdd s.length t.length
+    | .mul, .str s, other => (other.asInt.map (seqGuardOk Cfg.guardStrMulR s.length)).getD true
+    | .mul, other, .str s => (other.asInt.map (seqGuardOk Cfg.guardStrMulL s.length)).getD true
+    | .add, .bytes s, .bytes t => !ext || catGuardOk Cfg.guardBytesAdd s.length t.length
+    | .mul, .bytes s, other => !ext || (other.asInt.map (seqGuardOk Cfg.guardBytesMulR s.length)).getD true
+    | .mul, other, .bytes s => !ext || (other.asInt.map (seqGuardOk Cfg.guardBytesMulL s.length)).getD true
+    | _, _, _ => true
 
 /-- `constant_fold_unary_op(op, value)`.  The `+` branch was `return value` (the bool operand itself, F25:
     `Cfg.unaryPlusOnBoolKeepsBool = true`) and is `return +value` since the repair 7f2a944 (`false`). -/
